@@ -15,7 +15,9 @@ from .worlds import INEXACT, MISSING, NANQ, SCALE, f2q
 # ------------------------------------------------------------------ variables
 def add_data_vars(w: dict, rng: random.Random, *, rich: bool = True) -> None:
     """Attach extra dimensions and tagged data variables to a geometric world."""
-    extras = [{"name": "t", "size": 2}, {"name": "k", "size": rng.choice([2, 3])}]
+    tname = "time" if w["conv"] == "shoc_simple" else "t"
+    extras = [{"name": "t", "size": 2, "coord": {"name": tname, "kind": "time", "values": [0, 6]}},
+              {"name": "k", "size": rng.choice([2, 3])}]
     if rng.random() < 0.3:
         extras.append({"name": "index", "size": 2})
     w["extras"] = extras
